@@ -505,13 +505,14 @@ class ChildCase(Case):
                         os.sched_yield()
         elif ignored:
             pass
-        elif sig in (signal.SIGHUP, signal.SIGINT, signal.SIGTERM):
+        elif sig in (signal.SIGCHLD, signal.SIGURG, signal.SIGWINCH, signal.SIGTSTP, signal.SIGTTIN, signal.SIGTTOU):
+            raise HarnessError('signal %d not in the harness alphabet' % sig)
+        else:
+            # default action: terminate (or dump core); the peer installs no handlers
             if self.k_state == 'run':
                 self._dies(sig)
             else:
                 self.k_pend.add(sig)
-        else:
-            raise HarnessError('signal %d not in the harness alphabet' % sig)
 
     def env(self, action, value):
         if action == 'exit':
